@@ -292,7 +292,81 @@ theorem alwaysOn_constant (rnd : ℚ → ℚ) (a : Args) : (shouldSampleWith rnd
 theorem alwaysOff_constant (rnd : ℚ → ℚ) (a : Args) : (shouldSampleWith rnd .alwaysOff a).decision = .drop := by
   unfold shouldSampleWith; rfl
 
+/-! ## Spans started through a tracer (`Tracer::StartSpan`): the sampled flag is the sampler's decision -/
+
+/-- a valid parent given in any way but "explicit root" is the parent the sampler is asked about -/
+theorem effectiveParent_valid (via : ParentVia) (p : SpanContext) (hr : via ≠ .root) (hv : p.isValid = true) :
+    effectiveParent via p = p := by
+  cases via <;> simp_all [effectiveParent]
+
+/-- an explicit root, or a parent that is not valid, leaves the span without a valid parent -/
+theorem effectiveParent_invalid (via : ParentVia) (p : SpanContext) (h : via = .root ∨ p.isValid = false) :
+    (effectiveParent via p).isValid = false := by
+  have hinv : SpanContext.invalid.isValid = false := by decide
+  rcases h with h | h
+  · subst h; exact hinv
+  · cases via <;> simp [effectiveParent, h, hinv]
+
+/-- **A span with a valid parent, started under a parent-based sampler, gets exactly the parent's sampled decision and
+    the parent's trace state** (and joins the parent's trace; the root sampler is not consulted) — however the parent
+    is supplied, remote or local, any flags byte. -/
+theorem span_parentBased_valid_parent (rnd : ℚ → ℚ) (root : Sampler.Sampler) (via : ParentVia) (p : SpanContext)
+    (g : Bytes) (hr : via ≠ .root) (hv : p.isValid = true) :
+    let st := sampleSpanWith rnd (.parentBased root) via p g
+    st.sampled = decide (p.flags &&& 1 = 1) ∧ st.traceState = p.traceState ∧ st.traceId = p.traceId ∧ st.consulted = 0 := by
+  have he := effectiveParent_valid via p hr hv
+  have hres := parentBased_valid_parent rnd root ⟨p, p.traceId, [], 0, [], []⟩ hv
+  have hc := parentBased_valid_parent_no_consult root ⟨p, p.traceId, [], 0, [], []⟩ hv
+  simp only [sampleSpanWith, he, hv, if_true, hres, hc]
+  refine ⟨?_, trivial, trivial, trivial⟩
+  by_cases hb : p.flags &&& 1 = 1 <;> simp [hb, Result.isSampled]
+
+/-- **Without a valid parent the span is the root sampler's**: same flag, same trace state, same trace id, and the
+    root sampler is consulted exactly as if it were the tracer's sampler. -/
+theorem span_root_delegates (rnd : ℚ → ℚ) (root : Sampler.Sampler) (via : ParentVia) (p : SpanContext) (g : Bytes)
+    (h : via = .root ∨ p.isValid = false) :
+    let st := sampleSpanWith rnd (.parentBased root) via p g
+    let st' := sampleSpanWith rnd root via p g
+    st.sampled = st'.sampled ∧ st.recording = st'.recording ∧ st.traceState = st'.traceState ∧
+      st.traceId = st'.traceId ∧ st.consulted = st'.consulted := by
+  have hi := effectiveParent_invalid via p h
+  have hres := parentBased_root_delegates rnd root ⟨effectiveParent via p, g, [], 0, [], []⟩ hi
+  have hc := parentBased_root_consults root ⟨effectiveParent via p, g, [], 0, [], []⟩ hi
+  simp only [sampleSpanWith, hi, Bool.false_eq_true, if_false, hres, hc]
+  exact ⟨trivial, trivial, trivial, trivial, trivial⟩
+
+/-- **All participants in a trace agree, at the level of spans**: under samplers built from the same ratio, two spans of
+    the same trace (whatever their parents and the way these were supplied) carry the same sampled flag. -/
+theorem span_participants_agree (d : Dbl) (s s' : Sampler.Sampler) (hs : mkRatio d = some s) (hs' : mkRatio d = some s')
+    (via via' : ParentVia) (p p' : SpanContext) (g g' : Bytes)
+    (h : (sampleSpan s via p g).traceId = (sampleSpan s' via' p' g').traceId) :
+    (sampleSpan s via p g).sampled = (sampleSpan s' via' p' g').sampled := by
+  have key := participants_agree d s s' hs hs'
+    ⟨effectiveParent via p, (sampleSpan s via p g).traceId, [], 0, [], []⟩
+    ⟨effectiveParent via' p', (sampleSpan s' via' p' g').traceId, [], 0, [], []⟩ h
+  simp only [sampleSpan, sampleSpanWith, shouldSample] at key h ⊢
+  rw [key]
+
+/-- the flag of an always-on / always-off tracer is constant -/
+theorem span_alwaysOn_sampled (rnd : ℚ → ℚ) (via : ParentVia) (p : SpanContext) (g : Bytes) :
+    (sampleSpanWith rnd .alwaysOn via p g).sampled = true := by
+  simp [sampleSpanWith, shouldSampleWith, Result.isSampled]
+
+theorem span_alwaysOff_not_sampled (rnd : ℚ → ℚ) (via : ParentVia) (p : SpanContext) (g : Bytes) :
+    (sampleSpanWith rnd .alwaysOff via p g).sampled = false ∧ (sampleSpanWith rnd .alwaysOff via p g).recording = false := by
+  simp [sampleSpanWith, shouldSampleWith, Result.isSampled, Result.isRecording]
+
 /-! ## The hypotheses are satisfiable; concrete values through the executable model -/
+
+/-- an unsampled remote parent given as the active span under `ParentBased(AlwaysOn)`: not sampled, parent's trace -/
+example : (sampleSpan (.parentBased .alwaysOn) .active
+    ⟨[1,0,0,0,0,0,0,0,0,0,0,0,0,0,0,0], [1,0,0,0,0,0,0,0], 0xfe, true, [([107], [118])]⟩ (List.replicate 16 9)).sampled = false := by
+  decide +kernel
+/-- … the same span context under an explicit root: the root sampler decides, on the generated trace id -/
+example : (sampleSpan (.parentBased .alwaysOn) .root
+    ⟨[1,0,0,0,0,0,0,0,0,0,0,0,0,0,0,0], [1,0,0,0,0,0,0,0], 0xfe, true, [([107], [118])]⟩ (List.replicate 16 9)).traceId
+      = List.replicate 16 9 := by
+  decide +kernel
 
 /-- 0.5 and its successor double as exact rationals -/
 example : Dbl.ofBits 0x3fe0000000000000 = .fin (1 / 2) := by decide +kernel
